@@ -21,6 +21,7 @@ func (c *Ctx) chainIs(rule, key string, pos token.Pos, v ssa.Value, want []strin
 func propC17(c *Ctx) propInfo {
 	c.errflow(excC17E2, "ton")
 	c.radixDiscipline("E11.radix", "ton", "liteclient", "utils")
+	c.addressBufferSizes()
 	const R = "E8.mustcheck"
 	if f := c.mustFn(R, "ton", "AccountIDFromBase64Url"); f != nil {
 		c.mustDominate(R, f, 1, []requiredCheck{
@@ -439,4 +440,39 @@ var excC17E2 = map[string]string{
 	"(*ton.Bits256).FromUnknownString R-swallow return nil under ton.Bits256.FromBase64() != nil":    "format probe: the text is tried as base64, then URL-safe base64, then hex; a form that does not parse is not an error as long as a later one does, and the error of the last attempt is returned",
 	"(*ton.Bits256).FromUnknownString R-swallow return nil under ton.Bits256.FromBase64() != nil#2":  "format probe: the text is tried as base64, then URL-safe base64, then hex; a form that does not parse is not an error as long as a later one does, and the error of the last attempt is returned",
 	"(*ton.Bits256).FromUnknownString R-swallow return nil under ton.Bits256.FromBase64URL() != nil": "format probe: the text is tried as base64, then URL-safe base64, then hex; a form that does not parse is not an error as long as a later one does, and the error of the last attempt is returned",
+}
+
+// madeSizes: constant sizes of the byte buffers a function makes (make([]byte, K) is an array
+// allocation plus a slice in go/ssa).
+func madeSizes(f *ssa.Function) []int64 {
+	var out []int64
+	seen := map[*ssa.Alloc]bool{}
+	allInstrs(f, func(_ *ssa.BasicBlock, in ssa.Instruction) {
+		if mk, ok := in.(*ssa.MakeSlice); ok {
+			if k, ok := constInt(mk.Len); ok {
+				out = append(out, k)
+			}
+		}
+		if sl, ok := in.(*ssa.Slice); ok {
+			if al, ok := sl.X.(*ssa.Alloc); ok && al.Heap && al.Comment == "makeslice" && !seen[al] {
+				seen[al] = true
+				if n, ok := arrayLen(al.Type()); ok {
+					out = append(out, n)
+				}
+			}
+		}
+	})
+	return out
+}
+
+// addressBufferSizes: what is encoded is exactly the 36 bytes of the form, not a longer buffer
+// whose tail would be encoded (base64) or sent (TL) along.
+func (c *Ctx) addressBufferSizes() {
+	const R = "E7.bytelayout"
+	for _, n := range []string{"AccountID.ToHuman", "AccountID.MarshalTL"} {
+		if f := c.fn("ton", n); f != nil {
+			sz := madeSizes(f)
+			c.check(len(sz) == 1 && sz[0] == 36, R, n+" builds exactly 36 bytes", f.Pos(), "make([]byte, 36)", fmt.Sprintf("%s builds its output in buffer(s) of %v bytes; the form is 36 bytes (tag/workchain, 32-byte hash, checksum or 4-byte workchain + hash) and everything in the buffer is emitted", n, sz))
+		}
+	}
 }
